@@ -18,7 +18,7 @@ fn spec(t: Tier) -> Spec {
     Spec {
         id: "C13",
         level: "exploration",
-        rule: format!("(1) a sandbox holding every creatable entry kind (regular empty/non-empty/setuid, hard-link pair, empty and non-empty directory, fifo, socket, symbolic links to each of them, to a link, to a file outside, dangling; link owners differ from target owners; ids 0, 1, 54321, 2^31) is walked under -P, -H, -L from the directory (entries at depth >= 1) and with every entry as its own starting point (depth 0); on every visited entry every test of the vocabulary (-type/-xtype x 7 letters, -links/-inum/-uid/-gid N,+N,-N around the real values and those values plus 2^32, -user/-group by name and number, -empty, -samefile against every entry, -lname '*', 8 -perm operands) is evaluated in comma-list runs of the real find and compared with the oracle computed from lstat()/stat() of the materialised entry (stat-else-lstat where the mode follows at that depth; -xtype the opposite choice; -lname only where the selected record is still a link). (2) {pm} files (and directories in thorough) carrying every permission value x octal operands ({ops}) x forms MODE, -MODE, /MODE against the bit formula. (3) symbolic operands: every sequence of <= {sq} clauses over who x op x perms (chmod semantics applied to 0 with umask 0 — while the process itself runs with umask 027, which must not matter; includes copies like g=u and clauses that remove bits) — the mask the code derives is read off the selection on 25 probe files for -SYM and /SYM and on all 4096 files for SYM, and must equal the reference value. (4) mounted file systems: a tmpfs on m/mnt (-inum N/+N/-N for every inode number present must follow lstat, also on the mount point) and two tmpfs instances with coinciding inode numbers (-samefile against every file: device and inode must both agree). (5) as uid 65534: links into a mode-000 directory are not dangling (-xtype l false), the dangling one is. evaluation = (entry, test); non-trivial = test on a symbolic link or with a symbolic operand or a permission test", pm = 4096, ops = t.pick("every mask with <= 3 or >= 10 bits set, class masks: 386", "all 4096"), sq = t.pick("1 (all 432) and 2 over a 54-clause subset", "2 (all 432^2)")),
+        rule: format!("(1) a sandbox holding every creatable entry kind (regular empty/non-empty/setuid, hard-link pair, empty and non-empty directory, fifo, socket, symbolic links to each of them, to a link, to a file outside, dangling; link owners differ from target owners; ids 0, 1, 54321, 2^31) is walked under -P, -H, -L from the directory (entries at depth >= 1) and with every entry as its own starting point (depth 0); on every visited entry every test of the vocabulary (-type/-xtype x 7 letters, -links/-inum/-uid/-gid N,+N,-N around the real values and those values plus 2^32, -user/-group by name and number, -empty, -samefile against every entry, -lname '*', 8 -perm operands) is evaluated in comma-list runs of the real find and compared with the oracle computed from lstat()/stat() of the materialised entry (stat-else-lstat where the mode follows at that depth; -xtype the opposite choice; -lname only where the selected record is still a link). (2) {pm} files (and directories in thorough) carrying every permission value x octal operands ({ops}) x forms MODE, -MODE, /MODE against the bit formula. (3) symbolic operands: every sequence of <= {sq} clauses over who x op x perms (chmod semantics applied to 0 with umask 0 — while the process itself runs with umask 027, which must not matter; includes copies like g=u and clauses that remove bits) — the mask the code derives is read off the selection on 25 probe files for -SYM and /SYM and on all 4096 files for SYM, and must equal the reference value. (6) the whole vocabulary once more with the follow mode given as the word -follow AFTER the tests: identical to -L (except -samefile, whose reference file is resolved where the test is written). (4) mounted file systems: a tmpfs on m/mnt (-inum N/+N/-N for every inode number present must follow lstat, also on the mount point) and two tmpfs instances with coinciding inode numbers (-samefile against every file: device and inode must both agree). (5) as uid 65534: links into a mode-000 directory are not dangling (-xtype l false), the dangling one is. evaluation = (entry, test); non-trivial = test on a symbolic link or with a symbolic operand or a permission test", pm = 4096, ops = t.pick("every mask with <= 3 or >= 10 bits set, class masks: 386", "all 4096"), sq = t.pick("1 (all 432) and 2 over a 54-clause subset", "2 (all 432^2)")),
         bound: json!({"follow": ["-P","-H","-L"], "perm_values": 4096, "octal_operands": t.pick(386, 4096), "symbolic_clauses": 432, "symbolic_sequences": t.pick("432 + 54^2", "432 + 432^2")}),
         assumptions: vec![
             "a -samefile reference that is itself a symbolic link is judged under -P (lstat) and -L (stat) only; under -H it is run for determinism".into(),
@@ -760,7 +760,53 @@ fn unreachable_target_slice(ctx: &mut Ctx) {
     crate::sandbox::clear_dir(&sbx);
 }
 
+/// The follow mode given as the word -follow AFTER the tests (tests that capture the mode when they
+/// are parsed would miss it): every test of the vocabulary must select exactly what it selects
+/// under -L.
+fn follow_word_after_slice(ctx: &mut Ctx) {
+    let sbx = ctx.sbx.clone();
+    if let Err(e) = build_kinds(&sbx) {
+        ctx.rep.machinery(format!("kinds sandbox: {e}"));
+        return;
+    }
+    std::env::set_current_dir(&sbx).unwrap();
+    let paths: Vec<String> = lb::list_tree("r").into_iter().map(|(p, _)| p).collect();
+    // (-samefile takes a reference file, which GNU find resolves with the mode in force where the
+    // test is written: "-follow affects only those tests which appear after it" — not judged here)
+    let all: Vec<Test> = kind_tests(&paths).into_iter().map(|k| k.test).filter(|t| t[0] != "-samefile").collect();
+    for tests in all.chunks(40) {
+        let reference = lb::run_labelled(&["-L"], &["r"], &["-sorted"], tests, default_now());
+        let mut argv = lb::argv_for(&[], &["r"], &["-sorted"], tests);
+        argv.push("-follow".into());
+        let args: Vec<&str> = argv.iter().map(|s| s.as_str()).collect();
+        let got = crate::findrun::run_find_at(&args, default_now());
+        ctx.rep.evaluations += tests.len() as u64;
+        ctx.rep.nontrivial += tests.len() as u64;
+        ctx.rep.count("follow_word_after_runs", 1);
+        let Ok(reference) = reference else {
+            ctx.rep.machinery("follow-word slice: the -L run could not be attributed".into());
+            continue;
+        };
+        if got.out != reference.out.out || got.code != reference.out.code {
+            // which test differs?
+            let lines = |b: &[u8]| -> BTreeSet<String> { String::from_utf8_lossy(b).lines().map(String::from).collect() };
+            let (a, b) = (lines(&reference.out.out), lines(&got.out));
+            let diff: Vec<&String> = a.symmetric_difference(&b).take(4).collect();
+            let label = diff.first().and_then(|l| l.split('\t').next()).and_then(|l| l.strip_prefix('L')).and_then(|k| k.parse::<usize>().ok());
+            let which = label.and_then(|k| tests.get(k)).map(|t| t[0].clone()).unwrap_or_else(|| "?".into());
+            ctx.rep.violation(
+                &format!("C13 {which}: the word -follow written after the test does not have the effect of -L"),
+                format!("find r -sorted ( ... {:?} ... ) -follow differs from find -L r -sorted ( ... ): first differing lines {:?}", label.and_then(|k| tests.get(k)), diff),
+                json!({"prop":"C13","part":"follow_word"}),
+            );
+        }
+    }
+}
+
 fn run(ctx: &mut Ctx) {
+    if ctx.shard == 4 % ctx.nshards {
+        follow_word_after_slice(ctx);
+    }
     if ctx.shard == 2 % ctx.nshards {
         mount_slice(ctx);
     }
@@ -780,6 +826,10 @@ fn run(ctx: &mut Ctx) {
 
 fn replay(case: &Value, ctx: &mut Ctx) -> Option<String> {
     let sbx = ctx.sbx.clone();
+    if case["part"] == "follow_word" {
+        follow_word_after_slice(ctx);
+        return ctx.rep.violations.keys().next().cloned();
+    }
     if case["part"] == "mount" {
         mount_slice(ctx);
         return ctx.rep.violations.keys().next().cloned();
